@@ -9,17 +9,18 @@ None == [none |-> TRUE]
 Fresh(stim) == [stim |-> stim, rejected |-> <<>>, built |-> FALSE, reqHead |-> None, srv |-> None, respHead |-> None, cli |-> None,
                 reqTr |-> 0, reqData |-> <<>>, respData |-> <<>>, respTrs |-> <<>>, respEnd |-> FALSE, rawSent |-> None, bodies |-> FALSE]
 Is(x) == "none" \notin DOMAIN x
-Keys == {"mock", "limit_hits", "runs", "inproc", "h2", "raw", "unary", "cstream", "sstream", "bidi", "handler_errors", "fail_before", "compressed_resp",
+Keys == {"mock", "wire", "wire_recovered", "limit_hits", "runs", "inproc", "h2", "raw", "unary", "cstream", "sstream", "bidi", "handler_errors", "fail_before", "compressed_resp",
          "compressed_req", "with_req_meta", "with_err_meta", "trailers_only", "refused"}
 Init == InitK(Fresh([mode |-> "none"]), Keys)
 
 ReqMeta == Accepted(s.stim.req.meta, s.rejected)
 ClientMode == s.stim.mode = "client"
 MockMode == s.stim.mode = "mock"
-Tapped == s.stim.mode = "raw" \/ s.stim.transport = "inproc"
+Tapped == s.stim.mode \in {"raw", "wire"} \/ s.stim.transport = "inproc"
+WireMode == s.stim.mode = "wire"
 
 Reset == ResetK(Fresh(E.stim))
-         /\ Count({"runs", IF E.stim.mode = "raw" THEN "raw" ELSE IF E.stim.mode = "mock" THEN "mock" ELSE E.stim.transport}
+         /\ Count({"runs", IF E.stim.mode = "raw" THEN "raw" ELSE IF E.stim.mode = "mock" THEN "mock" ELSE IF E.stim.mode = "wire" THEN "wire" ELSE E.stim.transport}
                   \cup (IF E.stim.mode = "client" THEN {E.stim.shape} ELSE {})
                   \cup (IF E.stim.mode = "client" /\ ~E.stim.script.end.ok THEN {"handler_errors"} ELSE {})
                   \cup (IF E.stim.mode = "client" /\ E.stim.script.fail_before THEN {"fail_before"} ELSE {})
@@ -94,6 +95,23 @@ RawClauses(stim, sent, status, head, bytes, hints, trs, srv) ==
         <<"C05.ServedWhenAcceptable", (~refused /\ ~flagNoEnc /\ stim.raw.wellformed) => (code = FinalCode(stim) /\ Is(srv))>>,
         <<"C03.BodyIsTheMessages", (~refused /\ ~flagNoEnc /\ stim.raw.wellformed) => BodyCarries(bytes, hints, SentMsgs(stim), enc)>> >>
 
+\* ---- "wire" runs: a bare h2 client against everything tonic::transport::Server wraps around the service.  The response may come
+\* from the handler, or be synthesised by the server for a call that failed in a layer (a user layer's Status, an expired timeout):
+\* either way it is a gRPC response tonic produced (C03), and carries the status the failure stands for (C02 / C09 wording).
+WireExpect(stim) == IF stim.server.fail_code >= 0 THEN stim.server.fail_code ELSE IF stim.wire.expires THEN 1 ELSE FinalCode(stim)
+WireClauses(stim, status, head, bytes, hints, trs, srv) ==
+  LET trailersOnly == bytes = <<>> /\ trs = <<>>
+      statusList == IF trailersOnly THEN head.list ELSE IF trs = <<>> THEN <<>> ELSE trs[Len(trs)]
+      code == IF StatusCount(statusList) = 1 THEN CodeOf(Values(statusList, "grpc-status")[1]) ELSE -1
+      recovered == stim.server.fail_code >= 0 \/ stim.wire.expires
+  IN << <<"C03.Http200", status = 200>>,
+        <<"C03.RespContentType", Values(head.list, "content-type") = <<S_appgrpc>> >>,
+        <<"C03.StatusOnce", IF trailersOnly THEN StatusCount(head.list) = 1 ELSE StatusCount(head.list) = 0 /\ Len(trs) = 1 /\ StatusCount(trs[1]) = 1>>,
+        <<"C03.TrailersOnlyIsBodyless", trailersOnly => head.eos>>,
+        <<"C02.TrueStatusOnWire", code = WireExpect(stim)>>,
+        <<"C02.HandlerRunsOnce", stim.server.fail_code >= 0 => ~Is(srv)>>,
+        <<"C03.BodyIsTheMessages", IF recovered THEN trailersOnly ELSE BodyCarries(bytes, hints, SentMsgs(stim), "")>> >>
+
 Bodies == /\ Live("bodies")
           /\ LET off == IF ClientMode THEN SeqToSet(s.stim.client.accept) ELSE {} IN
              JudgeK(<< <<"RecorderHonest", E.req.bytes = s.reqData /\ E.resp.bytes = s.respData>>,
@@ -107,13 +125,17 @@ Bodies == /\ Live("bodies")
                            \* a trailers-only response is body-less: its body is at its end before it is ever polled (no DATA frame, not even an empty one)
                            \o << <<"C03.TrailersOnlyIsBodyless", (E.resp.bytes = <<>> /\ s.respTrs = <<>> /\ Has(s.respHead, "eos")) => s.respHead.eos>> >>
                         ELSE <<>>)
-                    \o (IF ~ClientMode /\ Is(s.respHead) /\ Is(s.rawSent) THEN
+                    \o (IF WireMode /\ Is(s.respHead) THEN
+                           WireClauses(s.stim, s.respHead.status, s.respHead, E.resp.bytes, E.resp.frames, s.respTrs, s.srv)
+                        ELSE <<>>)
+                    \o (IF ~ClientMode /\ ~WireMode /\ Is(s.respHead) /\ Is(s.rawSent) THEN
                            RawClauses(s.stim, s.rawSent, s.respHead.status, s.respHead.list, E.resp.bytes, E.resp.frames, s.respTrs, s.srv)
                         ELSE <<>>),
                     [s EXCEPT !.bodies = TRUE])
           /\ Count((IF AllFlagged(E.resp.bytes) /\ E.resp.bytes # <<>> THEN {"compressed_resp"} ELSE {})
                    \cup (IF AllFlagged(E.req.bytes) /\ E.req.bytes # <<>> THEN {"compressed_req"} ELSE {})
-                   \cup (IF Tapped /\ E.resp.bytes = <<>> /\ s.respTrs = <<>> THEN {"trailers_only"} ELSE {}))
+                   \cup (IF Tapped /\ E.resp.bytes = <<>> /\ s.respTrs = <<>> THEN {"trailers_only"} ELSE {})
+                   \cup (IF WireMode /\ (s.stim.server.fail_code >= 0 \/ s.stim.wire.expires) THEN {"wire_recovered"} ELSE {}))
 End == EndK(<< <<"RunComplete", E.outcome = "ok" =>
                    /\ s.bodies
                    /\ ((ClientMode \/ MockMode) => Is(s.cli))
